@@ -347,6 +347,8 @@ class Kinds:
             return None
         if isinstance(e, ast.Starred):
             return None
+        if isinstance(e, ast.Constant) and e.value is None:
+            return ANY          # `x = None` placeholder: neutral for the agreement of the other bindings
         if isinstance(e, (ast.Tuple, ast.List)):
             if any(isinstance(x, ast.Starred) for x in e.elts):
                 return None
